@@ -31,8 +31,49 @@ func c14CanaryAlwaysDecided(r *Run, rule string) {
 		return
 	}
 	n := 0
+	// anchor: the innermost function from which both the store to status.activeReplicaSet (in the
+	// function itself or a helper it calls — the field is matched by its type, so a helper taking
+	// the *Status works too) and the status write are reached
+	storesActive := func(fn *ssa.Function) bool {
+		for _, g := range r.Prog.calleesWithin(fn, 2) {
+			if len(storesToFieldOf(g, pkgAPI, "ExtendedDaemonSetStatus", "ActiveReplicaSet")) > 0 {
+				return true
+			}
+		}
+		return false
+	}
+	hasTarget := func(fn *ssa.Function) bool {
+		for _, ci := range callsIn(fn) {
+			if e := clientEffect(fn, ci); e != nil && e.Status && e.Verb == "Update" {
+				return true
+			}
+			if cal := staticCallee(ci.Common()); cal != nil && r.Prog.IsRuleSite(cal) {
+				for _, e2 := range effectsOf(r.Prog.reachableFuncs(cal)) {
+					if e2.Status && e2.Verb == "Update" && shortKind(e2.Kind) == "ExtendedDaemonSet" {
+						return true
+					}
+				}
+			}
+		}
+		return false
+	}
+	qualifies := map[*ssa.Function]bool{}
 	for _, fn := range sortedFuncs(reach) {
-		if len(storesTo(fn, "Status", "ActiveReplicaSet")) == 0 {
+		if r.Prog.IsRuleSite(fn) && storesActive(fn) && hasTarget(fn) {
+			qualifies[fn] = true
+		}
+	}
+	for _, fn := range sortedFuncs(reach) {
+		if !qualifies[fn] {
+			continue
+		}
+		inner := false
+		for _, g := range r.Prog.calleesWithin(fn, 3) {
+			if g != fn && qualifies[g] {
+				inner = true
+			}
+		}
+		if inner {
 			continue
 		}
 		// deciding blocks
@@ -41,7 +82,7 @@ func c14CanaryAlwaysDecided(r *Run, rule string) {
 			for _, in := range b.Instrs {
 				switch x := in.(type) {
 				case *ssa.Store:
-					if fa, ok := x.Addr.(*ssa.FieldAddr); ok && fieldName(fa) == "Canary" && hasPathSuffix(x.Addr, "Status", "Canary") {
+					if fa, ok := x.Addr.(*ssa.FieldAddr); ok && fieldName(fa) == "Canary" && isPtrToNamed(fa.X.Type(), pkgAPI, "ExtendedDaemonSetStatus") {
 						deciding[b] = true
 					}
 				case ssa.CallInstruction:
